@@ -530,17 +530,27 @@ fn all_depend_on(expr: &str, plan: &str) -> impl Fn(&mut EGraph, Id, &Subst) -> 
     }
 }
 
-/// Returns the columns used by the expression.
-///
-/// A reference to a class that holds a plain column (`(ref (* a 1))` once `(* a 1)` has been
-/// simplified to `a`) uses that column: this is how `produced` names it.
+/// Returns the name under which the value of class `id` is passed between plans: the column
+/// itself if the class holds a plain column (also behind references: `(ref (* a 1))` once
+/// `(* a 1)` has been simplified to `a`), otherwise a reference to the class.
+fn name_of(egraph: &EGraph, mut id: Id) -> Expr {
+    loop {
+        let class = &egraph[id];
+        if let Some(column) = class.iter().find(|e| matches!(e, Expr::Column(_))) {
+            return column.clone();
+        }
+        match class.iter().find(|e| matches!(e, Expr::Ref(_))) {
+            Some(Expr::Ref(next)) if egraph.find(*next) != egraph.find(id) => id = *next,
+            _ => return Expr::Ref(egraph.find(id)),
+        }
+    }
+}
+
+/// Returns the columns used by the expression, named the way `produced` names them.
 fn used(egraph: &EGraph, expr: Id) -> HashSet<Expr> {
     (egraph[expr].data.columns.iter())
         .map(|e| match e {
-            Expr::Ref(id) => (egraph[*id].iter())
-                .find(|e| matches!(e, Expr::Column(_)))
-                .unwrap_or(e)
-                .clone(),
+            Expr::Ref(id) => name_of(egraph, *id),
             _ => e.clone(),
         })
         .collect()
@@ -548,13 +558,7 @@ fn used(egraph: &EGraph, expr: Id) -> HashSet<Expr> {
 
 /// Returns the columns produced by the plan.
 fn produced(egraph: &EGraph, plan: Id) -> impl Iterator<Item = Expr> + '_ {
-    (egraph[plan].data.schema.iter()).map(|id| {
-        egraph[*id]
-            .iter()
-            .find(|e| matches!(e, Expr::Column(_) | Expr::Ref(_)))
-            .cloned()
-            .unwrap_or(Expr::Ref(*id))
-    })
+    (egraph[plan].data.schema.iter()).map(|id| name_of(egraph, *id))
 }
 
 /// Returns true if the node `var1` is not a list.
